@@ -35,6 +35,7 @@ type PipeGenOpts struct {
 	Volume      bool // one worker, several hundred datagrams, a slow consumer: more than a megabyte of output waits in or has passed through one worker's hands
 	MidPolls    bool // stats API read in the middle of phases as well
 	SockLoss    bool // tiny socket receive queue: bursts lose datagrams before the collector reads them
+	VolumeDeep  bool // volume profile with several thousand datagrams and a consumer that falls far behind (the outgoing queue overflows)
 	Early       bool // the first phase is sent while the collector is still starting (slow disk)
 	LongGap     int  // seconds of silence between the first phase (announcements) and the later ones
 	Dyn         bool // dynamic workers: load peak, long idle period (scale-down), then traffic again
@@ -622,6 +623,10 @@ func genPipePlan(seed int64, o PipeGenOpts) *PipePlan {
 			}
 		}
 		total := 500 + r.Intn(350)
+		if o.VolumeDeep && !o.Mirror {
+			total = 4300 + r.Intn(1500)
+			p.Cfg.TapDelayUs = 20000
+		}
 		if o.Mirror {
 			// the mirror's socket is slow: its queues (a thousand datagrams deep) fill up
 			total = 1200 + r.Intn(700)
